@@ -69,9 +69,11 @@ TX_SIG = 'self.send_signaling'
 TX_IDLE = 'self.drive_electrical_idle'
 GEN_ROLE = 'polling'
 
-QUICK_FREQS = (125e6, 62.5e6)
+# the last frequency of each list makes the largest window bound an exact power of two of cycles (polling: 14 us = 2048
+# cycles; ping 240 ms = 2**25 and reset 120 ms = 2**24 cycles): a counter declared one value short loses its top bit there
+QUICK_FREQS = (125e6, 62.5e6, 2048 / 14e-6)
 QUICK_SECOND_ROLES = ('polling',)   # the engine needs ~1 s to size Signal(range(30e6)): second frequency only where cheap
-THOROUGH_FREQS = (125e6, 250e6, 62.5e6, 133.33e6, 156.25e6)
+THOROUGH_FREQS = (125e6, 250e6, 62.5e6, 133.33e6, 156.25e6, 2048 / 14e-6, 2 ** 25 / 0.24)
 FWD_FREQ = 250e6
 
 
